@@ -219,6 +219,68 @@ def e3_part(prop_arg, config, cases):
     return f
 
 
+MIRIFLAGS = "-Zmiri-symbolic-alignment-check -Zmiri-strict-provenance -Zmiri-disable-isolation"
+MIRI_DEFS = 12
+
+
+def e3_miri_part(prop_arg, cases):
+    """A subset of generated sequences replayed under Miri (sanitizer-style oracle on generated cases)."""
+    def f(tier):
+        gen = cargo_build("e2_genstage")
+        d = os.path.join(WORK, "gen", "miri-%s" % seed())
+        os.makedirs(d, exist_ok=True)
+        rc, out = run([gen, "gen", str(MIRI_DEFS), d], timeout=600, extra_env={"VERIF_SEED": str(seed() ^ 0x3141)})
+        if rc != 0:
+            raise Inconclusive("e2_genstage failed:\n%s" % out[-2000:])
+        cases_file = os.path.join(WORK, "miri_cases_%s_%s.json" % (prop_arg, os.getpid()))
+        rc, out = run([gen, "cases", prop_arg, str(cases[tier]), cases_file], timeout=600)
+        if rc != 0:
+            raise Inconclusive("e2_genstage cases failed:\n%s" % out[-2000:])
+        result = os.path.join(WORK, "miri_%s_%s.json" % (prop_arg, os.getpid()))
+        side = result + ".side"
+        import glob
+        for fpath in glob.glob(side + "*"):
+            os.remove(fpath)
+        env_extra = {"VERIF_GEN_DIR": d, "VERIF_THREADS": "1", "VERIF_MIRI": "1", "MIRIFLAGS": MIRIFLAGS, "VERIF_SIDEFILE": side}
+        cmd = ["cargo", "+nightly", "miri", "run", "-q", "-p", "e3_gencrate", "--features", "hooks", "--target-dir",
+               os.path.join(ENGINE, "target_m"), "--", "replay-list", prop_arg, cases_file, result]
+        rc, log = run(cmd, cwd=ENGINE, timeout=7200, extra_env=env_extra)
+        part = "e3:%s:miri" % prop_arg
+        rule = ("Miri tier: %d pre-generated operation sequences on %d generated definitions replayed under cargo miri "
+                "(Stacked Borrows, symbolic alignment check, strict provenance) with the hooks on; may-be-uninitialised plain "
+                "fields are written right after creation (generated Drop reads them as integers)") % (cases[tier], MIRI_DEFS)
+        if rc == 0 and os.path.exists(result):
+            r = json.load(open(result))
+            os.remove(result)
+            os.remove(cases_file)
+            for fpath in glob.glob(side + "*"):
+                os.remove(fpath)
+            r["part"] = part
+            r["rule"] = rule
+            r["replay_engine"] = "e3-miri"
+            r["replay_extra"] = {"gen_seed": seed() ^ 0x3141, "config": "miri"}
+            r.setdefault("property", prop_arg)
+            return r
+        ub = [l for l in log.splitlines() if "Undefined Behavior" in l or l.startswith("error")]
+        case = None
+        for fpath in sorted(glob.glob(side + "*")):
+            try:
+                case = json.load(open(fpath))
+            except Exception:
+                pass
+            os.remove(fpath)
+        if os.path.exists(cases_file):
+            os.remove(cases_file)
+        if ub and "Undefined Behavior" in "\n".join(ub) and case is not None:
+            where = [l.strip() for l in log.splitlines() if l.strip().startswith("-->")][:1]
+            return {"part": part, "property": prop_arg, "replay_engine": "e3-miri", "replay_extra": {"gen_seed": seed() ^ 0x3141, "config": "miri"},
+                    "evaluations": 1, "nontrivial": 0, "distinct_nontrivial": 0, "rule": rule, "samples": [case], "classes": {}, "counters": {},
+                    "failures": [{"signature": "miri:undefined-behavior", "case": case,
+                                  "message": "Miri: %s %s" % (ub[0][:300], where[0] if where else "")}]}
+        raise Inconclusive("Miri run failed (rc %s):\n%s" % (rc, log[-3000:]))
+    return f
+
+
 def e3_parts(prop_arg, configs, cases):
     return [e3_part(prop_arg, c, cases) for c in configs]
 
@@ -246,7 +308,7 @@ PROPERTIES = {
     "C04": dict(level="exploration", parts=e3_parts("C04", "AB", dict(quick=150000, thorough=2500000))),
     "C05": dict(level="exploration", parts=e3_parts("C05", "AB", dict(quick=150000, thorough=2500000))),
     "C06": dict(level="exploration", parts=e3_parts("C06", "AB", dict(quick=150000, thorough=2500000))),
-    "C07": dict(level="exploration", parts=e3_parts("C07", "AC", dict(quick=150000, thorough=2500000))),
+    "C07": dict(level="exploration", parts=e3_parts("C07", "AC", dict(quick=150000, thorough=2500000)) + [e3_miri_part("C07", dict(quick=30, thorough=400))]),
     "C15": dict(level="exploration", parts=e3_parts("C15", "AB", dict(quick=150000, thorough=2500000))),
     "C16": dict(level="exploration", parts=e3_parts("C16", "AB", dict(quick=150000, thorough=2500000))),
     "C08": dict(level="exploration", parts=e4_parts("C08", dict(quick=60000, thorough=1500000), dict(quick=8, thorough=12))),
@@ -285,6 +347,8 @@ def setup():
             e3_build("quick", c)
         cargo_build("e5_probes")
         cargo_build("probe_deps", target_dir="target_p")
+        os.environ.setdefault("VERIF_SEED", "1")
+        e3_miri_part("C07", dict(quick=1))("quick")
     except Inconclusive as e:
         print("setup failed:", e)
         return 2
@@ -316,6 +380,32 @@ def replay(prop, path):
             if rc == 1:
                 print("VIOLATION property=%s replay=%s" % (prop, path))
             return rc
+        if engine == "e3-miri":
+            extra = data.get("replay_extra", {})
+            gen = cargo_build("e2_genstage")
+            d = os.path.join(WORK, "gen", "miri-replay")
+            os.makedirs(d, exist_ok=True)
+            run([gen, "gen", str(MIRI_DEFS), d], timeout=600, extra_env={"VERIF_SEED": str(extra.get("gen_seed", 1))})
+            lst = os.path.join(WORK, "miri_replay_cases.json")
+            json.dump([data["case"]], open(lst, "w"))
+            res = os.path.join(WORK, "miri_replay_result.json")
+            rc, log = run(["cargo", "+nightly", "miri", "run", "-q", "-p", "e3_gencrate", "--features", "hooks", "--target-dir", os.path.join(ENGINE, "target_m"),
+                           "--", "replay-list", data.get("replay_property", prop), lst, res], cwd=ENGINE, timeout=3600,
+                          extra_env={"VERIF_GEN_DIR": d, "VERIF_THREADS": "1", "VERIF_MIRI": "1", "MIRIFLAGS": MIRIFLAGS})
+            if "Undefined Behavior" in log:
+                print("\n".join(log.splitlines()[:12]))
+                print("VIOLATION property=%s replay=%s" % (prop, path))
+                return 1
+            if rc == 0:
+                r = json.load(open(res))
+                if r.get("failures"):
+                    print(r["failures"][0]["message"])
+                    print("VIOLATION property=%s replay=%s" % (prop, path))
+                    return 1
+                print("replay: property %s holds on this case under Miri" % prop)
+                return 0
+            print("INCONCLUSIVE: Miri replay failed:\n" + log[-2000:])
+            return 2
         if engine.startswith("e3-"):
             extra = data.get("replay_extra", {})
             tier = "thorough" if extra.get("tier_defs") == E3_DEFS["thorough"] else "quick"
